@@ -81,6 +81,41 @@ def check_from_inp_call_sites(ctx, consequence: str):
                 ctx.check("shell = run.step.uses_shell()" in src and "env_overrides = run.step.get_env_overrides()" in src, f.fq, "shell and overrides come from the step's own row", "provenance changed", "own row")
     if n != 2:
         raise AnalysisError(f"expected 2 StepHash.from_inp call sites in executor.py, found {n}")
+    # sibling agreement: the two sites read the environment from the same source (the values are hash ingredients)
+    envs = sorted({ast.unparse(c.args[2]) for f in ex.all_funcs.values() for c in calls_in(f.node) if ast.unparse(c.func) == "StepHash.from_inp" and len(c.args) >= 3})
+    ctx.check(len(envs) == 1, "executor.Executor", "both digest sites take the tracked variables from the same environment", f"the two sites read the environment differently ({envs}): {consequence}", envs[0] if envs else "")
+    # and that environment is the one the command runs in
+    rc = ctx.prog.func("executor.Executor._run_command")
+    ctx.check("self.base_env" in ast.unparse(rc.node) and all("self.base_env" in e for e in envs), rc.fq, "the hashed environment is the one the command is started with (base_env)", f"digest sites hash {envs}, the command runs with base_env: {consequence}", "base_env")
+
+
+def check_registration_keeps_subs(ctx, consequence: str):
+    """DirectorHandler.register_glob rebuilds the registration from the client's pattern *and* substitutions (through
+    helpers, if any), and static() patterns have none."""
+    rg = ctx.prog.func("director.DirectorHandler.register_glob")
+    seen, todo, found = set(), [rg], []
+    while todo:
+        fi = todo.pop()
+        if fi.fq in seen:
+            continue
+        seen.add(fi.fq)
+        for c in calls_in(fi.node):
+            if isinstance(c.func, ast.Name) and c.func.id == "NamedGlob":
+                found.append((fi, c))
+            elif isinstance(c.func, ast.Attribute) and isinstance(c.func.value, ast.Name) and c.func.value.id == "self" and c.func.attr.startswith("_"):
+                tgt = fi.cls.methods.get(c.func.attr) if getattr(fi, "cls", None) is not None and hasattr(fi.cls, "methods") else None
+                if tgt is None:
+                    try:
+                        tgt = ctx.prog.func(f"director.DirectorHandler.{c.func.attr}")
+                    except AnalysisError:
+                        tgt = None
+                if tgt is not None:
+                    todo.append(tgt)
+    if not found:
+        raise AnalysisError("register_glob no longer builds a NamedGlob (directly or through a private helper)")
+    for fi, c in found:
+        ok = len(c.args) + len(c.keywords) >= 2 and any("subs" in ast.unparse(a) for a in list(c.args[1:]) + [k.value for k in c.keywords])
+        ctx.check(ok, fi.fq, f"{ast.unparse(c)} for a glob() registration", consequence, "pattern and subs", where=ctx.where_of(fi, c))
 
 
 def check_rescan_rebuilds_registered_matcher(ctx, consequence: str):
@@ -95,3 +130,41 @@ def check_rescan_rebuilds_registered_matcher(ctx, consequence: str):
             ctx.check(ok, fi.fq, f"NamedGlob({', '.join(args)})", consequence, "pattern and subs of the same registration", where=ctx.where_of(fi, c))
     if n == 0:
         raise AnalysisError("rescan_nglobs no longer rebuilds a NamedGlob")
+
+
+def check_can_recycle_compares_roles(ctx, consequence_fmt: str):
+    """Step.can_recycle compares each of the four declaration lists with its own stored counterpart (regular and
+    volatile outputs separately: the role of a path decides whether cleaning looks at its content)."""
+    import re
+
+    cr = ctx.prog.func("step.Step.can_recycle")
+    # name -> getter method whose result (alone) it holds: `old_x = sorted(... self.<getter>(dynamic=False) ...)`
+    holds = {}
+    for a in ast.walk(cr.node):
+        if isinstance(a, ast.Assign) and len(a.targets) == 1 and isinstance(a.targets[0], ast.Name) and isinstance(a.value, ast.Call) and callee_name(a.value) == "sorted":
+            getters = [callee_name(c) for c in ast.walk(a.value) if isinstance(c, ast.Call) and isinstance(c.func, ast.Attribute) and isinstance(c.func.value, ast.Name) and c.func.value.id == "self"]
+            if len(getters) == 1 and not any(isinstance(x, ast.BinOp) for x in ast.walk(a.value)):
+                holds[a.targets[0].id] = getters[0]
+    compared = {}
+    for c in ast.walk(cr.node):
+        if isinstance(c, ast.Compare) and len(c.comparators) == 1 and isinstance(c.ops[0], (ast.Eq, ast.NotEq)):
+            sides = [c.left, c.comparators[0]]
+            names = [x.id for x in sides if isinstance(x, ast.Name)]
+            params = [x.args[0].id for x in sides if isinstance(x, ast.Call) and callee_name(x) == "sorted" and len(x.args) == 1 and isinstance(x.args[0], ast.Name)]
+            if len(names) == 1 and len(params) == 1 and names[0] in holds:
+                compared[params[0]] = holds[names[0]]
+    for p, getter in (("inp_paths", "inp_paths"), ("env_deps", "env_deps"), ("out_paths", "out_paths"), ("vol_paths", "vol_paths")):
+        ctx.check(compared.get(p) == getter, cr.fq, f"{p} compared with its own stored counterpart", consequence_fmt.format(p=p), "compared")
+
+
+def check_tree_adopts_all_detached(ctx, consequence: str):
+    """Workflow.register_static_tree hands every detached file row under the new tree over to the tree."""
+    import re
+
+    rt = ctx.prog.func("workflow.Workflow.register_static_tree")
+    stm = ctx.sql.stmts_in(rt.fq)
+    adopt = [s for s in stm if re.search(r"SELECT label FROM node JOIN file", s.text)]
+    if not adopt:
+        raise AnalysisError("register_static_tree: adoption sweep not found")
+    ok = all(re.search(r"WHERE node \. detached AND substr", s.text) and "state" not in s.text.split("WHERE", 1)[1] and " AND " not in s.text.split("WHERE node . detached AND", 1)[1] for s in adopt)
+    ctx.check(ok, rt.fq, "adoption sweep takes every detached file under the tree (no state filter)", consequence, "all detached rows")
